@@ -182,6 +182,10 @@ def key_of(spec, check, symptom=None):
     k["max_iter"] = "1" if spec.get("max_iter") == 1 else ("default" if spec.get("max_iter") is None else ">1")
     if symptom:
         k["symptom"] = symptom
+    if symptom == "zero-tmat":
+        # the break-before-first-tridiagonal-update corner happens whatever the preconditioner returns: keep it apart
+        # from the aliasing findings (which are keyed on pre_returns alone)
+        k["pre_returns"] = "not-involved"
     return k
 
 
